@@ -189,22 +189,22 @@ theorem C03_step_range_from_parsed (t : List Char) (s : GameState) (h : parseSta
 /-! ## Non-vacuity -/
 
 /-- a concrete play-phase state at step 0 (empty board; the theorems do not look at the board) -/
-private def ex0 : GameState :=
+private def ex0_C03 : GameState :=
   { p1Turn := false, moveNo := 7, phase := .play (PlayPhase.initial 0 [0]), board := Board.empty,
     hash := 0 }
 
-example : ex0.phase = .play (PlayPhase.initial 0 [0]) ∧ (PlayPhase.initial 0 [0]).step < 3 :=
+example : ex0_C03.phase = .play (PlayPhase.initial 0 [0]) ∧ (PlayPhase.initial 0 [0]).step < 3 :=
   ⟨rfl, by decide⟩
-example : TurnInv ex0 := turnInv_of_initial _ _ _ rfl
+example : TurnInv ex0_C03 := turnInv_of_initial _ _ _ rfl
 /-- a state at step 3 exists and is reached by three steps -/
-example : ∃ pp, (ex0.runMoves [(0, .up), (0, .up), (0, .up)]).phase = .play pp ∧ pp.step = 3 :=
+example : ∃ pp, (ex0_C03.runMoves [(0, .up), (0, .up), (0, .up)]).phase = .play pp ∧ pp.step = 3 :=
   ⟨_, rfl, rfl⟩
 /-- Silver ends a turn by the fourth step: the move number goes from 7 to 8, Gold is on move -/
-example : (ex0.runMoves [(0, .up), (0, .up), (0, .up), (0, .up)]).moveNo = 8 ∧
-    (ex0.runMoves [(0, .up), (0, .up), (0, .up), (0, .up)]).p1Turn = true := ⟨rfl, rfl⟩
+example : (ex0_C03.runMoves [(0, .up), (0, .up), (0, .up), (0, .up)]).moveNo = 8 ∧
+    (ex0_C03.runMoves [(0, .up), (0, .up), (0, .up), (0, .up)]).p1Turn = true := ⟨rfl, rfl⟩
 /-- the hypotheses of `C03_overflow_point` are satisfiable -/
 example : ∃ (s : GameState) (pp : PlayPhase), s.phase = .play pp ∧ s.moveNo = usizeMax ∧ s.p1Turn = false :=
-  ⟨{ ex0 with moveNo := usizeMax }, _, rfl, rfl, rfl⟩
+  ⟨{ ex0_C03 with moveNo := usizeMax }, _, rfl, rfl, rfl⟩
 /-- a parsed position exists -/
 example : ∃ s, parseState "2g".toList = .ok s := ⟨_, rfl⟩
 
